@@ -190,7 +190,7 @@ CHECKS = {
     "C06": {
         "level": "exploration",
         "parts": [{"gen": "C06", "quick": 640, "thorough": 6400}],
-        "rule": "one run = the real server of one cell (7 Shadowsocks ciphers, the 2022 AES ones also with two registered users, VMess x 2 with several registered ids, Trojan; tcp + udp) with a scripted target behind it and 80 (thorough 400) attacks, "
+        "rule": "one run = the real server of one cell (7 Shadowsocks ciphers, the 2022 AES ones also with two registered users, VMess x 2 with several registered ids, Trojan; tcp + udp; the stream carrier cycles over tcp / ws / tls / quic with harness-side WebSocket, TLS and QUIC clients, so the credential check is exercised behind every accept path) with a scripted target behind it and 80 (thorough 400) attacks, "
                 "each on a fresh connection in 1-3 segments: random bytes; reference-built handshakes under a random / one-bit-wrong / unregistered key, password or user id; right server key with an unregistered user key, wrong server key with a registered user key, "
                 "no identity header with the server key or a user key; another protocol's handshake; a valid handshake cut at a drawn byte; one bit flipped inside the credential proof; and the datagram versions of these. "
                 "Oracle per attack: the server host issues no connect and no datagram toward the target (simulated registry), a truncated valid handshake relays at most a prefix of its own payload; afterwards a legitimate reference client is served and its answer opens under its own key; "
